@@ -36,8 +36,8 @@ def obligations(tier):
     obs.append(S.SOb('C02.valid[G7,n=3,tags=1,nbest=2]', S.G7(False), 3, S.one_tag(3, 3), pruning=1, penalty='sym', nbest=2))
     obs.append(S.SOb('C02.valid[G7x,n=3,tags=1,nbest=2]', S.G7x(False), 3, S.one_tag(3, 3), pruning=1, penalty='sym', nbest=2))
     if not q:
-        obs.append(S.SOb('C02.valid[G4,n=3,tags=1:[0,1,0],nbest=3]', g4, 3, S.one_tag(3, 2, [0, 1, 0]), pruning=1, penalty='sym', nbest=3, max_seconds=900))
-        obs.append(S.SOb('C02.valid[GU,n=4,tags=1]', c01.GUn(4), 4, S.one_tag(4, 4), pruning=1, penalty='0', max_seconds=1500))
+        obs.append(S.SOb('C02.valid[G4,n=3,tags=1:[0,1,0],nbest=3]', g4, 3, S.one_tag(3, 2, [0, 1, 0]), pruning=1, penalty='sym', nbest=3, max_seconds=450))
+        obs.append(S.SOb('C02.valid[GU,n=4,tags=1]', c01.GUn(4), 4, S.one_tag(4, 4), pruning=1, penalty='0', max_seconds=600))
     return obs
 
 
